@@ -45,8 +45,17 @@ func (c *InternalCron) ScheduleEvent(ctx *core.Context, se *ScheduledEvent) erro
 		return err
 	}
 
+	// All locations share this cron, so a rule id alone does not
+	// identify a job, and the tick has to go to the location that
+	// scheduled it (not to whatever location the context points
+	// to when the tick fires).
+	home := ctx.Location()
+
 	fn := func(t time.Time) error {
-		loc := ctx.Location()
+		loc := home
+		if loc == nil {
+			loc = ctx.Location()
+		}
 		if loc == nil {
 			return errors.New("no location in ctx")
 		}
@@ -57,7 +66,18 @@ func (c *InternalCron) ScheduleEvent(ctx *core.Context, se *ScheduledEvent) erro
 		core.Log(core.DEBUG|CRON, ctx, "InternalCron.ScheduleEvent", "findrules", *fr)
 		return nil
 	}
-	return c.Cron.Add(ctx, se.Id, sched, fn)
+	return c.Cron.Add(ctx, jobKey(ctx, se.Id), sched, fn)
+}
+
+// jobKey qualifies a rule id with the name of the context's location
+// (if any).
+func jobKey(ctx *core.Context, id string) string {
+	if ctx != nil {
+		if loc := ctx.Location(); loc != nil {
+			return loc.Name + "\x00" + id
+		}
+	}
+	return id
 }
 
 func (c *InternalCron) Schedule(ctx *core.Context, sw *ScheduledWork) error {
@@ -98,11 +118,11 @@ func (c *InternalCron) Schedule(ctx *core.Context, sw *ScheduledWork) error {
 		return nil
 	}
 
-	return c.Cron.Add(ctx, sw.Id, sched, fn)
+	return c.Cron.Add(ctx, jobKey(ctx, sw.Id), sched, fn)
 }
 
 func (c *InternalCron) Rem(ctx *core.Context, id string) (bool, error) {
-	return c.Cron.Rem(ctx, id)
+	return c.Cron.Rem(ctx, jobKey(ctx, id))
 }
 
 func (c *InternalCron) Persistent() bool {
